@@ -10,3 +10,15 @@ add("C06", "exhaustive enumeration of the 135 model names x position contexts an
     "Every published name in every position context and every prefix pair is parsed and compared (exhaustive over that finite space, with 4 fixed sets of registered names); registered-name combinations, registration timing and rejection of near-miss words are sampled.",
     "Trusted: pinned list pbt/data/models.txt; the lexical rules of DESIGN.md 3.1 for building safe neighbouring labels.",
     "DESIGN.md 4 C06")
+add("C03", "Hypothesis-generated Decay/Alias/ChargeConj/CopyDecay/CDecay webs vs reference interpreter with conjugation from the particle ID tables",
+    "Random search over statement webs and both values of the switch; every table (sources included), line and field compared with a reference that conjugates through ChargeConj pairs read both ways and PDG-ID negation.",
+    "Trusted: pbt/decref.py, particle ID tables. Excluded by construction (stated in rule): unclean ChargeConj webs, CDecay of real self-conjugate particles, copies of copies.",
+    "DESIGN.md 4 C03")
+add("C05", "metamorphic (file vs its AST-level textual expansion) + reference interpreter, Hypothesis-generated Define/ModelAlias placements",
+    "Each generated file is parsed next to its own expansion (every Define'd name and alias substituted in the AST) and both are compared with the reference; placements, redefinitions, negation and multi-use are sampled.",
+    "Trusted: pbt/decref.py and the expansion function in pbt/props/C05.py (40 lines).",
+    "DESIGN.md 4 C05")
+add("C07", "Hypothesis-generated declaration files vs reference dictionaries (values and value types)",
+    "All sixteen declaration kinds in any order with repeated names; the eleven queries are compared exactly, including int/float/str/bool typing, the later-wins rule, the lineshape-repeat error and the GeV reference width.",
+    "Trusted: pbt/decref.declarations, particle package widths.",
+    "DESIGN.md 4 C07")
